@@ -21,7 +21,19 @@ STATE = os.path.join(BASE, "state")
 ENV = dict(os.environ, CARGO_NET_OFFLINE="true", PGV_HARNESS=HARN, PGV_STATE=STATE)
 
 def sh(cmd, cwd=None, timeout=3600, env=None):
-    return subprocess.run(cmd, cwd=cwd, env=env or ENV, stdout=subprocess.PIPE, stderr=subprocess.STDOUT, text=True, timeout=timeout)
+    # own process group, so that a hanging grandchild (a test binary spinning in a mutant)
+    # dies with the timeout; a timeout is reported as return code 124
+    p = subprocess.Popen(cmd, cwd=cwd, env=env or ENV, stdout=subprocess.PIPE, stderr=subprocess.STDOUT, text=True, start_new_session=True)
+    try:
+        out, _ = p.communicate(timeout=timeout)
+        return subprocess.CompletedProcess(cmd, p.returncode, out, None)
+    except subprocess.TimeoutExpired:
+        try:
+            os.killpg(p.pid, 9)
+        except ProcessLookupError:
+            pass
+        out, _ = p.communicate()
+        return subprocess.CompletedProcess(cmd, 124, (out or "") + "\nTIMEOUT", None)
 
 def setup():
     if os.path.exists(BASE):
@@ -57,7 +69,9 @@ def apply_text(edits):
     return None
 
 def repo_tests():
-    r = sh(["cargo", "test", "--workspace", "--no-fail-fast", "--offline"], cwd=REPO, timeout=1800)
+    r = sh(["cargo", "test", "--workspace", "--no-fail-fast", "--offline"], cwd=REPO, timeout=600)
+    if r.returncode == 124:
+        return True, 0, 1, "the repository's tests hang"
     passed = sum(int(x) for x in re.findall(r"test result: \w+\. (\d+) passed", r.stdout))
     failed = sum(int(x) for x in re.findall(r"test result: \w+\. \d+ passed; (\d+) failed", r.stdout))
     compiled = "error: could not compile" not in r.stdout and "error[" not in r.stdout
